@@ -497,13 +497,19 @@ def ntFirst (G : Table) : Nat → Nat → Option (List TokClass × Bool)
 
 def disjointToks (a b : List TokClass) : Bool := a.all fun x => !b.contains x
 
+/-- token class of a token -/
+def cls : Tok → TokClass
+  | .kw k => .kw k
+  | .named t _ => .named t
+
 /-- two alternatives of one rule are told apart by their leading keywords, or, where those agree, by the next
-token -/
-def altsApart (first : List Item → Option (List TokClass × Bool)) : List Item → List Item → Bool
-  | .kw a :: x, .kw b :: y => a != b || altsApart first x y
+token (`dj` = the disjointness test on sets of token classes) -/
+def altsApart (dj : List TokClass → List TokClass → Bool) (first : List Item → Option (List TokClass × Bool)) :
+    List Item → List Item → Bool
+  | .kw a :: x, .kw b :: y => a != b || altsApart dj first x y
   | x, y =>
     match first x, first y with
-    | some (a, ea), some (b, eb) => !ea && !eb && disjointToks a b
+    | some (a, ea), some (b, eb) => !ea && !eb && dj a b
     | _, _ => false
 
 def usesNt (m : Nat) : Item → Bool
@@ -512,42 +518,53 @@ def usesNt (m : Nat) : Item → Bool
   | .opt n => n == m
   | _ => false
 
-/-- what follows nonterminal `m` at its use sites -/
+/-- what follows nonterminal `m` at its use sites; after one repetition of `m*` another repetition may follow, so
+the context of a starred use begins with the starred item itself -/
 def useContexts (G : Table) (m : Nat) : List (List Item) :=
   G.forms.flatMap fun h => go h.items
 where
   go : List Item → List (List Item)
     | [] => []
+    | .star n :: rest => (if n == m then [.star n :: rest] else []) ++ go rest
     | i :: rest => (if usesNt m i then [rest] else []) ++ go rest
 
-/-- the decision "one more repetition / take the optional part" is made on one token: the first tokens of the
-repeated rule are disjoint from what can follow (looking one level up when the rest of the form is nullable) -/
-def repsOK (G : Table) (first : List Item → Option (List TokClass × Bool))
+/-- the decision "one more repetition / take the optional part" is made on one token: the repeated / optional rule
+never derives the empty sentence, and its first tokens are disjoint from what can follow (looking one level up, at
+every use site of the enclosing rule, when the rest of the form is nullable) -/
+def repsOK (dj : List TokClass → List TokClass → Bool) (first : List Item → Option (List TokClass × Bool))
     (ofNt : Nat → Option (List TokClass × Bool)) (ctx : List (List Item)) : List Item → Bool
   | [] => true
-  | .star n :: rest => repOK n true rest && repsOK G first ofNt ctx rest
-  | .opt n :: rest => repOK n false rest && repsOK G first ofNt ctx rest
-  | _ :: rest => repsOK G first ofNt ctx rest
+  | .star n :: rest => repOK n rest && repsOK dj first ofNt ctx rest
+  | .opt n :: rest => repOK n rest && repsOK dj first ofNt ctx rest
+  | _ :: rest => repsOK dj first ofNt ctx rest
 where
-  repOK (n : Nat) (isStar : Bool) (rest : List Item) : Bool :=
+  repOK (n : Nat) (rest : List Item) : Bool :=
     match ofNt n, first rest with
     | some (a, en), some (b, eb) =>
-      !(isStar && en) && disjointToks a b &&
+      !en && dj a b &&
         (!eb || ctx.all fun c =>
           match first c with
-          | some (cf, ce) => !ce && disjointToks a cf
+          | some (cf, ce) => !ce && dj a cf
           | none => false)
     | _, _ => false
 
-/-- `ParseWF`: within one rule the alternatives are distinguishable by their keyword prefix plus one token of
-lookahead, and every repetition / option is decided on one token.  (Nesting budget 12 > depth of the grammar;
-an exhausted budget makes the check fail.) -/
-def ParseWF (G : Table) : Bool :=
+/-- the lookahead conditions for a given disjointness test on token classes (nesting budget 12 > depth of the
+grammar; an exhausted budget makes the check fail) -/
+def parseWFWith (G : Table) (dj : List TokClass → List TokClass → Bool) : Bool :=
   let ofNt := ntFirst G 12
   let first := firstOfItems ofNt
   (G.forms.all fun f => G.forms.all fun g =>
-    f.origin != g.origin || f.id == g.id || altsApart first f.items g.items) &&
-  (G.forms.all fun f => repsOK G first ofNt (if f.origin == G.start then [] else useContexts G f.origin) f.items)
+    f.origin != g.origin || f.id == g.id || altsApart dj first f.items g.items) &&
+  (G.forms.all fun f => repsOK dj first ofNt (useContexts G f.origin) f.items)
+
+/-- `ParseWF`: within one rule the alternatives are distinguishable by their keyword prefix plus one token of
+lookahead, and every repetition / option is decided on one token.  Token classes are compared by identity: this is
+the condition for sentences of TOKENS (`Deriv.yield`) to have one derivation (`unique_readability`).
+
+(The check as first written — `ParseWF0` in Lemmas/C10U.lean — treated the start symbol as never used inside a form,
+allowed `n?` for a nullable `n`, and forgot that `n*` can be followed by another `n`; each of the three lets an
+ambiguous table, see `parseWF0_too_weak`.) -/
+def ParseWF (G : Table) : Bool := parseWFWith G disjointToks
 
 /-! #### tree labels are named after their keyword -/
 
@@ -610,9 +627,10 @@ def TerminatedWF (G : Table) : Bool := terminatedWith G (closedOrigins G)
 /-! ### A parser for the folded grammar (model of `from_text`; Lark's LALR(1) construction itself is trusted)
 
 Recursive descent with ordered choice over the forms of a rule and greedy `star`/`opt` — adequate because the
-grammar is non-recursive and (obligation `ParseWF`) its alternatives are told apart by their keyword prefix and
-one token of lookahead.  `fuel` bounds the nesting depth; running out of it is reported as `.fuel`, never as a
-syntax error. -/
+grammar is non-recursive (obligation `DepthOK`) and its alternatives are told apart by their keyword prefix and
+one token of lookahead (obligation `ParseWFT`): under these the parser returns the derivation of every sentence
+(`parse_complete`, `parse_spec` in Props/C10.lean).  `fuel` bounds the nesting depth; running out of it is reported
+as `.fuel`, never as a syntax error. -/
 
 inductive PR (α : Type) where
   | ok (a : α)
@@ -715,6 +733,68 @@ def parseText (G : Table) (src : Text) : PR Deriv :=
   match lexProfile G.words src with
   | none => .fail
   | some toks => parseToks G toks
+
+/-! ### Lookahead on token texts (what the model parser sees), nesting depth -/
+
+/-- would the parser take text `x` for a token of class `c`? -/
+def accepts (G : Table) : TokClass → Text → Bool
+  | .kw k, x => G.keywords[k]? == some x
+  | .named t, x => G.matchTerm t x
+
+/-- the token's text belongs to its class: a keyword id of the table, a text matching the named terminal -/
+def tokOK (G : Table) (t : Tok) : Bool := accepts G (cls t) (G.tokText t)
+
+/-- no text matches both named terminals -/
+def termsApart (G : Table) (t t' : Nat) : Bool :=
+  match G.terminals.lookup t, G.terminals.lookup t' with
+  | some none, some none => false
+  | some none, some (some alts) => alts.all fun w => w.head? != some 34
+  | some (some alts), some none => alts.all fun w => w.head? != some 34
+  | some (some a), some (some a') => a.all fun w => !a'.contains w
+  | _, _ => true
+
+/-- can one text be a token of both classes?  (`spawnto_x86` is a keyword inside `post-ex` and an OPTION word.) -/
+def overlap (G : Table) : TokClass → TokClass → Bool
+  | .kw k, .kw k' => G.keywords[k]? == G.keywords[k']?
+  | .kw k, .named t =>
+    match G.keywords[k]? with
+    | some w => G.matchTerm t w
+    | none => false
+  | .named t, .kw k =>
+    match G.keywords[k]? with
+    | some w => G.matchTerm t w
+    | none => false
+  | .named t, .named t' => t == t' || !termsApart G t t'
+
+def disjointTexts (G : Table) (a b : List TokClass) : Bool := a.all fun x => b.all fun y => !overlap G x y
+
+def distinctTexts : List Text → Bool
+  | [] => true
+  | k :: ks => !ks.contains k && distinctTexts ks
+
+/-- keywords are pairwise different texts -/
+def KwsDistinct (G : Table) : Bool := distinctTexts G.keywords
+
+/-- `ParseWFT`: `ParseWF` with token classes compared by the TEXTS they accept — the condition for the model parser,
+which sees texts only, to find the derivation (`parse_complete`). -/
+def ParseWFT (G : Table) : Bool := KwsDistinct G && parseWFWith G (disjointTexts G)
+
+def itemNt : Item → Option Nat
+  | .nt n => some n
+  | .star n => some n
+  | .opt n => some n
+  | _ => none
+
+/-- every derivation of nonterminal `n` nests less than `k` deep -/
+def depthOK (G : Table) : Nat → Nat → Bool
+  | 0, _ => false
+  | k + 1, n => G.forms.all fun f => f.origin != n || f.items.all fun i =>
+      match itemNt i with
+      | some m => depthOK G k m
+      | none => true
+
+/-- `DepthOK`: the grammar is not recursive, and the nesting budget of `parseToks` (below) covers it -/
+def DepthOK (G : Table) : Bool := depthOK G (G.forms.length + 1) G.start
 
 /-! ### Histories: the specification is stateless
 
